@@ -78,7 +78,11 @@ class Pseudo2NetCDF:
         for k in [k for k in pfile.ncattrs()
                   if (k not in self.ignore_global_properties and
                       self.ignore_global_re.match(k) is None)]:
-            value = getattr(pfile, k)
+            # getncattr for the same reason as setncattr below
+            if hasattr(pfile, 'getncattr'):
+                value = pfile.getncattr(k)
+            else:
+                value = getattr(pfile, k)
             if not isinstance(value, MethodType):
                 try:
                     # setncattr: setattr would silently keep names that
